@@ -142,6 +142,8 @@ func checkC07(c *Ctx) {
 	// a discard of the working state discards its overlay too (on every path of Rollback)
 	checkRollbackFrame(c)
 	checkFailedRebuildDisablesIndex(c, "PASS-index-maintenance")
+	checkCloneCopiesDecisionFields(c)
+	checkIndexReaders(c)
 }
 
 // treeVersionTied: is the *ImmutableTree value src the tree of version L at block b?
